@@ -1,3 +1,4 @@
+import Pds.Proofs.KernelTie.CtorCuckoo
 import Pds.Proofs.KernelTie.Cuckoo
 import Pds.Proofs.KernelTie.CuckooOps
 /-!
@@ -54,5 +55,11 @@ theorem insert_internal_translated {R : Type} (I : Cuckoo.RngI R) (hash : List N
       | none => Flow.panic
       | some st => Flow.ret (resB st.res, (st.table.toList, st.n, st.rng, st.log.reverse)) :=
   cuckoo_insert_internal_eq I hash bs nb kicks t n rng lg f i1 i2
+
+/-- the constructor guard: the model's `new` accepts exactly what the translated `with_params_and_hash` accepts (and the
+packed table can be allocated for) -/
+theorem cuckoo_with_params_translated {R : Type} (rng : R) (bs nb lf : Nat) :
+    (Cuckoo.new rng bs nb lf).isSome ↔ (cuckoo_with_params bs nb lf = Flow.ret (nb * bs) ∧ lf * (nb * bs) < 2 ^ 64) :=
+  cuckoo_with_params_eq rng bs nb lf
 
 end Pds.Tie.C14
